@@ -16,6 +16,7 @@
 (*  fork parent child | sys task nr ret inj | exec task path argv envp ret                   *)
 (*  mark task kind ("returned" res code | "pre" idx) | exit task status                       *)
 (*  waited res status (one per wait / try_wait call, in order) | dump exe argv envp cwd io uid gid pgrp pid                            *)
+(*  io op res n a b head (the caller's reads / writes on the Child's pipes, in order)         *)
 (*  anomaly what (timeout, crash, extra task, ...) | end                                      *)
 EXTENDS SpawnAbs, TLC, Json, IOUtils
 
@@ -26,13 +27,13 @@ vars == <<i, st>>
 
 NoImage == [prog |-> "-", argv |-> << >>, envp |-> << >>, cwd |-> "-", io |-> <<"-", "-", "-">>,
             uid |-> -2, gid |-> -2, pg |-> "-"]
-NoFacts == [dio |-> << >>, raw |-> << >>, pipes |-> << >>, pgrp |-> 0]
-NoCfg == [bin |-> "-", envAlt |-> << >>, planned |-> << >>, feed |-> ""]
+NoFacts == [dio |-> << >>, raw |-> << >>, pipes |-> << >>, pgrp |-> 0, pfds |-> << >>]
+NoCfg == [bin |-> "-", envAlt |-> << >>, planned |-> << >>, feed |-> "", flow |-> << >>, mayHang |-> FALSE]
 Fresh(run, c, facts) ==
     [run |-> run, c |-> [c EXCEPT !.envAlt = Range(@), !.planned = Range(@)], facts |-> facts,
      returns |-> << >>, failed |-> {}, child |-> "none", execd |-> FALSE, image |-> NoImage,
      reaped |-> FALSE, cstatus |-> 0, waits |-> NoWaits,
-     execargs |-> << >>, attempt |-> {}, anomalies |-> << >>]
+     execargs |-> << >>, attempt |-> {}, anomalies |-> << >>, ios |-> << >>, cfds |-> << >>]
 
 Init == i = 1 /\ st = Fresh(0, NoCfg, NoFacts)
 
@@ -108,8 +109,8 @@ OnDump(s, e) ==
     IF ~s.execd THEN Anomaly(s, "DumpWithoutExec")
     ELSE LET im == ImageOf(s, e)
          IN  \* what the program sees must be what was passed to execve
-             IF <<im.prog, im.argv, im.envp>> # s.execargs THEN Anomaly([s EXCEPT !.image = im], "DumpDiffersFromExecve")
-             ELSE [s EXCEPT !.image = im]
+             IF <<im.prog, im.argv, im.envp>> # s.execargs THEN Anomaly([s EXCEPT !.image = im, !.cfds = e.allfds], "DumpDiffersFromExecve")
+             ELSE [s EXCEPT !.image = im, !.cfds = e.allfds]
 
 OnMark(s, e) ==
     IF e.kind = "returned"
@@ -136,6 +137,7 @@ Apply(s, e) ==
       [] e.ev = "dump"    -> OnDump(s, e)
       [] e.ev = "mark"    -> OnMark(s, e)
       [] e.ev = "exit"    -> OnExit(s, e)
+      [] e.ev = "io"      -> [s EXCEPT !.ios = Append(@, [op |-> e.op, res |-> e.res, n |-> e.n, a |-> e.a, b |-> e.b, head |-> e.head])]
       [] e.ev = "waited"  -> [s EXCEPT !.waits = Append(@, [res |-> e.res, status |-> e.status])]
       [] e.ev = "anomaly" -> Anomaly(s, e.what)
       [] OTHER            -> Anomaly(s, "UnknownEvent")
@@ -148,14 +150,43 @@ ObsOf(s) == [returns |-> s.returns, failed |-> s.failed, child |-> s.child, exec
 \* other failed call was caused by the implementation itself (wrong descriptor, bad pointer...)
 Unplanned(s) == {f \in s.failed : ~\E p \in s.c.planned : p.proc = f.proc /\ p.step = f.step /\ p.errno = f.errno}
 
+\* ---- standard streams: data flow and stray pipe ends ---------------------------------------------
+\* cfg.flow = what SpawnFlow.tla computes for the caller's plan when only the ends the API hands out
+\* exist: per operation [op, res, n, a, b, head] (n = -1 / head = "*": not determined by the plan);
+\* payload bytes are identified by their count and an order-sensitive checksum (a, b)
+FlowMatches(x, w) ==
+    /\ x.op = w.op /\ x.res = w.res
+    /\ (w.n = -1 \/ (x.n = w.n /\ x.a = w.a /\ x.b = w.b))
+    /\ (w.head = "*" \/ x.head = w.head)
+DataFlowOk(s) ==
+    Len(s.c.flow) > 0 =>
+        /\ Len(s.ios) = Len(s.c.flow)
+        /\ \A k \in DOMAIN s.ios : FlowMatches(s.ios[k], s.c.flow[k])
+\* each pipe the API created for a stream has, once spawn has returned, exactly one descriptor in the
+\* caller (the end in the Child) and exactly one in the exec'ed program (its descriptor 0/1/2): a stray
+\* copy of a write end keeps end-of-file from the reader, a stray read end keeps EPIPE from the writer
+PipeLinks(s) == {s.facts.pipes[k].link : k \in DOMAIN s.facts.pipes} \ {""}
+CountLink(fds, L) == Cardinality({k \in DOMAIN fds : fds[k].link = L})
+NoStrayPipeEnds(s) ==
+    \A L \in PipeLinks(s) :
+        /\ (Len(s.facts.pfds) > 0 => CountLink(s.facts.pfds, L) = 1)
+        /\ (Len(s.cfds) > 0 => CountLink(s.cfds, L) = 1)
+
 Verdict(s) ==
     LET o == ObsOf(s)
-        v == Violated(s.c, o, TRUE)
-             \cup (IF s.attempt = {} THEN {} ELSE {"AttemptIsConfigured"})
-             \cup (IF Unplanned(s) = {} THEN {} ELSE {"OnlyPlannedStepsFail"})
-    IN  [run |-> s.run, viol |-> v, anomalies |-> s.anomalies,
+        timedOut == \E k \in DOMAIN s.anomalies : s.anomalies[k] = "TimedOut"
+        \* the caller's own plan blocks for ever with any pipe API (SpawnFlow.tla says so): not a violation
+        admitted == s.c.mayHang /\ timedOut
+        v0 == Violated(s.c, o, TRUE)
+              \cup (IF s.attempt = {} THEN {} ELSE {"AttemptIsConfigured"})
+              \cup (IF Unplanned(s) = {} THEN {} ELSE {"OnlyPlannedStepsFail"})
+              \cup (IF NoStrayPipeEnds(s) THEN {} ELSE {"NoStrayPipeEnds"})
+              \cup (IF admitted \/ timedOut \/ DataFlowOk(s) THEN {} ELSE {"DataFlow"})
+        v == IF admitted THEN v0 \ {"OkMeansConfigured"} ELSE v0
+        an == IF admitted THEN SelectSeq(s.anomalies, LAMBDA a : a \notin {"TimedOut", "NoDump"}) ELSE s.anomalies
+    IN  [run |-> s.run, viol |-> v, anomalies |-> an, hangAdmitted |-> admitted,
          mismatch |-> (IF s.execd THEN ImageMismatch(s.c, s.image) ELSE {}) \cup s.attempt,
-         unplanned |-> Unplanned(s),
+         unplanned |-> Unplanned(s), ios |-> s.ios,
          returns |-> [k \in DOMAIN s.returns |-> [proc |-> s.returns[k].proc, res |-> s.returns[k].res, code |-> s.returns[k].code]],
          failed |-> s.failed, child |-> s.child, execd |-> s.execd, reaped |-> s.reaped,
          cstatus |-> s.cstatus, waits |-> s.waits, io |-> s.image.io]
